@@ -96,6 +96,7 @@ type Obligation struct {
 	Pos    string
 	Expect string // "unsat" normally; "sat" for vacuity/cover checks
 	Ctx    int    // number of context assertions in force when the obligation was raised
+	Raw    string // complete SMT script (relational obligations build their own two-copy context)
 	Src    string
 	// filled by the runner
 	Res  SolverResult
